@@ -386,3 +386,4 @@ C.assume('Contextual functions are pure and deterministic functions of (indent, 
 
 from . import layout_den  # noqa: E402,F401  (den, best_layout)
 from . import layout_c05  # noqa: E402,F401  (C05: the fitting walk bounds the first line)
+from . import layout_zone  # noqa: E402,F401  (C05: nested groups of a flat group stay flat)
